@@ -210,6 +210,17 @@ type fresh struct {
 	baseKnown   []c16Decl
 	baseVisible [][2]string
 	chunks      []string
+	stack       []string // the loaded fragments under the interactive one (JSON of their src)
+}
+
+// keyKnown is the known-predicate table as the analysis key of the model sees it: the
+// declarations known below the new fragment, plus one pseudo entry (empty name) that
+// identifies the whole stack of loaded fragments. What a declaration says (bounds,
+// synthetic or not, overridden by a later Decl) is a function of that stack, so two
+// analysis calls with equal keys have equal results.
+func (f *fresh) keyKnown(extra ...string) []c16Decl {
+	st := append(append([]string{}, f.stack...), extra...)
+	return append([]c16Decl{{"", c16Src{I: st}}}, f.baseKnown...)
 }
 
 type tabs struct {
@@ -236,10 +247,10 @@ func (t *tabs) record(f *fresh, c c16Cmd, res int, universe []string) {
 	if res == rParse {
 		return
 	}
-	ak := jkey(src, f.baseKnown)
+	ak := jkey(src, f.keyKnown())
 	prog, seen := t.akeys[ak]
 	after := f.m.observe(universe)
-	decls := append([]c16Decl{}, f.baseKnown...)
+	decls := f.keyKnown(jkey(src))
 	if res == rOk || (res == rEval && c.Op == "load") {
 		have := map[string]bool{}
 		for _, d := range f.baseKnown {
@@ -259,7 +270,7 @@ func (t *tabs) record(f *fresh, c c16Cmd, res int, universe []string) {
 	if !seen {
 		prog = len(t.akeys) + 1
 		t.akeys[ak] = prog
-		t.out.ATab = append(t.out.ATab, c16A{src, append([]c16Decl{}, f.baseKnown...), res != rAnalysis, prog, decls})
+		t.out.ATab = append(t.out.ATab, c16A{src, f.keyKnown(), res != rAnalysis, prog, decls})
 	}
 	if res == rAnalysis {
 		return
@@ -306,6 +317,7 @@ func (f *fresh) apply(t *tabs, c c16Cmd, universe []string) int {
 			}
 			sort.Slice(f.baseKnown, func(a, b int) bool { return f.baseKnown[a].Name < f.baseKnown[b].Name })
 			f.baseVisible = visibleOf(o)
+			f.stack = append(f.stack, jkey(c16Src{F: &p}))
 		}
 	}
 	return res
